@@ -190,11 +190,12 @@ def spec_bads(case, d, res, count_res=None, label=""):
             bads.append((lab, b_not(same(r, exp))))
         elif func in ("sum", "sum_squares"):
             if func == "sum_squares":
-                terms = [ite(vd, _sq(num(v)), 0) for vd, (c, v, s) in zip(valid, rows)]
+                # squares are taken in floating point whatever the value dtype (an int64 square does not fit into 64 bits)
+                terms = [ite(vd, _sq(SF.of(num(v))), SF.of(0.0)) for vd, (c, v, s) in zip(valid, rows)]
             else:
                 terms = [ite(vd, num(v), 0) for vd, (c, v, s) in zip(valid, rows)]
-            exp = total(terms, 0)
-            if dt.kind == "f":
+            exp = total(terms, SF.of(0.0) if func == "sum_squares" else 0)
+            if dt.kind == "f" or func == "sum_squares":
                 exp = exp if isinstance(exp, SF) else (SF.of(exp) if is_sym(exp) else float(exp))
             bads.append((lab, b_not(approx_same(r, exp))))
         elif func == "mean":
